@@ -6,7 +6,7 @@ root = os.path.join(os.path.dirname(os.path.abspath(__file__)), '..', 'seeded')
 fired = {}
 for path in sys.argv[1:]:
     for line in open(path, errors='replace'):
-        m = re.match(r'^(C\d\d-[A-J]): FIRED:(.*?) \| silent:(.*)$', line.strip())
+        m = re.match(r'^(C\d\d-[A-L]): FIRED:(.*?) \| silent:(.*)$', line.strip())
         if m:
             ids = []
             for pid in re.findall(r'C\d\d', m.group(2)):
